@@ -12,7 +12,7 @@ const DATA: usize = 44;
 const MAXLEN: usize = 50;
 const N: usize = 2;
 
-//@h name=rx_receive_frame props=C05,C01 bounded="N=2 slots, DATA=44, input length <= 50 bytes; all byte values, lengths, slot states and markers symbolic" fn=src/pdu_loop/pdu_rx.rs::PduRx::receive_frame obligation="receive_frame(any bytes): never panics; Ignored => nothing changed; non-EtherCAT EtherType or own source MAC => Ignored; Err => no buffer/marker changed and at most the matching Sent slot is left RxBusy; Processed => the lowest slot whose marker equals the first datagram index was Sent, is now RxDone and holds exactly the frame's EtherCAT payload; every other slot untouched"
+//@h name=rx_receive_frame props=C05,C01 bounded="N=2 slots, DATA=44, input length <= 50 bytes; all byte values, lengths, slot states and markers symbolic" fn=src/pdu_loop/pdu_rx.rs::PduRx::receive_frame obligation="receive_frame(any bytes): never panics; Ignored => nothing changed; non-EtherCAT EtherType or own source MAC => Ignored; Err => no buffer/marker changed and at most the matching Sent slot is left RxBusy; Processed => the lowest slot whose marker equals the first datagram index was Sent, is now RxDone and holds exactly the frame's EtherCAT payload; every other slot untouched; Ignored only for a reason (not EtherCAT / own echo / empty)"
 #[cfg_attr(kani, kani::proof)]
 #[cfg_attr(kani, kani::unwind(52))]
 #[cfg_attr(all(test, verif_replay), test)]
@@ -61,8 +61,10 @@ fn rx_receive_frame() {
         }
         i += 1;
     }
+    let plen0 = if len >= 16 { (u16::from_le_bytes([input[14], input[15]]) & 0x07ff) as usize } else { 0 };
     match r {
         Ok(ReceiveAction::Ignored) => {
+            assert!(len >= 14 && (ethertype != 0x88a4 || own || (len >= 16 && plen0 == 0)), "a frame is ignored only for a reason: not EtherCAT, our own echo, or empty");
             let mut i = 0;
             while i < N {
                 assert!(now[i] == (st[i], fp[i], pl[i]) && same_buf[i], "ignored frame leaves every slot unchanged");
@@ -131,4 +133,40 @@ fn rx_exit_flag() {
     pdu_loop.storage.exit_flag.store(true, core::sync::atomic::Ordering::SeqCst);
     let input: [u8; 20] = vk::any_array();
     assert!(rx.receive_frame(&input) == Ok(ReceiveAction::Ignored));
+}
+
+//@h name=rx_receive_genuine props=C01,C05 bounded="N=2 slots, DATA=44, input length <= 50 bytes; restricted (by assumption) to genuine responses" fn=src/pdu_loop/pdu_rx.rs::PduRx::receive_frame obligation="COMPLETENESS of receive_frame: a genuine response - EtherType 0x88a4, not our own echo, frame type DLPDU, datagram area of >= 2 bytes lying inside the bytes received and inside the slot, first-datagram index for which the lowest matching slot awaits a response (Sent) - is ALWAYS Processed (never ignored, never rejected), whatever the destination address and the rest of the bytes"
+#[cfg_attr(kani, kani::proof)]
+#[cfg_attr(kani, kani::unwind(52))]
+#[cfg_attr(all(test, verif_replay), test)]
+fn rx_receive_genuine() {
+    let s = PduStorage::<N, DATA>::new();
+    let (_tx, mut rx, pdu_loop) = s.try_split().unwrap();
+    let sref = &pdu_loop.storage;
+    let mut st = [FrameState::None; N];
+    let mut fp = [0u16; N];
+    let mut i = 0;
+    while i < N {
+        st[i] = any_state();
+        fp[i] = vk::any();
+        let pl: usize = vk::any();
+        vk::assume(pl <= DATA - 16);
+        unsafe { poke_ptr(sref.frame_at_index(i), st[i], fp[i], pl) };
+        i += 1;
+    }
+    let input: [u8; MAXLEN] = vk::any_array();
+    let len: usize = vk::any();
+    vk::assume(len >= 18 && len <= MAXLEN);
+    let ethertype = u16::from_be_bytes([input[12], input[13]]);
+    let own = input[6..12] == [0x10; 6];
+    let hdr = u16::from_le_bytes([input[14], input[15]]);
+    let plen = (hdr & 0x07ff) as usize;
+    let idx = input[17] as u16;
+    let k = if fp[0] == idx { 0 } else { 1 };
+    vk::assume(ethertype == 0x88a4 && !own && (hdr >> 12) == 1);
+    vk::assume(plen >= 2 && 16 + plen <= len && plen <= DATA - 16);
+    vk::assume(fp[k] == idx && st[k] == FrameState::Sent);
+    let r = rx.receive_frame(&input[..len]);
+    assert!(matches!(r, Ok(ReceiveAction::Processed)), "a genuine response to an outstanding request is delivered");
+    assert!(unsafe { peek_ptr(sref.frame_at_index(k)) }.0 == FrameState::RxDone);
 }
